@@ -158,6 +158,42 @@ def spec_validation():
     return n, bad
 
 
+def fragmented(mode):
+    """the receiver reads from a SOCKET: the real recv_stub over the real SocketConnection.recv / receive_data on a scripted socket that hands the bytes of an encoded
+    message out in pieces (first reads short - also with MSG_WAITALL, where a short read is legal: signal, timeout race, peer pause).  The decoded message must be the
+    one encoded, whatever the fragmentation."""
+    import Pyro5.socketutil as su
+    from replay.c17 import FakeSock
+    config.COMPRESSION = False
+    config.MAX_MESSAGE_SIZE = 1024 * 1024 * 1024
+    current_context.correlation_id = None
+    payload = bytes(range(256)) * 2
+    ann = {"ABCD": b"0123456789", "WXYZ": b"\xff" * 7}
+    m = P.SendingMessage(4, P.FLAGS_ONEWAY, 77, 2, payload, annotations=ann)
+    runs = 0
+    scripts = [[("data", k)] for k in (1, 2, 3, 5, 6, 33, 34, 100)] + [[("data", 1), ("data", 1), ("data", 2)], [("data", 3), ("err", 11), ("data", 4)],
+               [("all",), ("data", 5)], [("all",), ("all",), ("data", 7), ("data", 1)], [("all",), ("data", 30), ("all",), ("data", 100), ("data", 3)]]
+    for waitall in (True, False):
+        for ssl in (False, True):
+            for script in scripts:
+                runs += 1
+                su.USE_MSG_WAITALL = waitall
+                sock = FakeSock(m.data + b"NEXT", script, ssl=ssl)
+                conn = su.SocketConnection(sock)
+                desc = {"fn": "fragmented", "script": script, "USE_MSG_WAITALL": waitall, "ssl": ssl}
+                try:
+                    r = P.recv_stub(conn)
+                except Exception as x:      # noqa
+                    return runs, dict(desc, violated="decoder rejected an encoded message that arrived in pieces: %r" % (x,))
+                if sock.pos != len(m.data):
+                    return runs, dict(desc, violated="consumed %d bytes of a %d byte message" % (sock.pos, len(m.data)))
+                if (r.type, r.flags, r.seq, r.serializer_id) != (4, P.FLAGS_ONEWAY, 77, 2) or bytes(r.data) != payload or \
+                        {k: bytes(v) for k, v in r.annotations.items()} != ann:
+                    return runs, dict(desc, violated="a message that arrived in pieces was decoded into different fields / payload / annotations",
+                                      got=[r.type, r.flags, r.seq, r.serializer_id, len(r.data)])
+    return runs, None
+
+
 def main(mode):
     seed = int(os.environ.get("VERIF_SEED", "0") or 0)
     rnd = random.Random(seed)
@@ -236,8 +272,12 @@ def main(mode):
             fail = fail or decode_arbitrary(bytes(b), rnd.choice([1024 * 1024 * 1024, 20, 34, 35, 0]))
             if fail:
                 break
+    if not fail:
+        n, fail = fragmented(mode)
+        runs += n
     rep = {"runs": runs, "failing_input": fail, "wall_s": round(time.time() - t0, 2),
-           "bounded": [{"what": "real SendingMessage / recv_stub round trip, size limit, decoder on mutated byte strings; struct/zlib spec validation",
+           "bounded": [{"what": "real SendingMessage / recv_stub round trip, size limit, decoder on mutated byte strings; the same message read from a scripted socket in pieces "
+                                "(13 fragmentation scripts x MSG_WAITALL on/off x ssl on/off); struct/zlib spec validation",
                         "bound": "4 field tuples x 8 payloads (around the 100-byte threshold, compressible and not) x 4 annotation dicts x corr on/off x compression on/off; "
                                  "%d seeded mutations of a 3-annotation message; %d library-spec probes" % (1500 if mode != "thorough" else 20000, nspec),
                         "runs": runs, "failures": 0 if fail is None else 1}]}
